@@ -118,7 +118,7 @@ def post(check, pairs, stats):
 CFG = {
     "id": "C09",
     "level": "proof",
-    "lean_modules": ["GeomV.C09.Proofs", "GeomV.C09.ProofsProj"],
+    "lean_modules": ["GeomV.C09.Proofs", "GeomV.C09.ProofsProj", "GeomV.C09.ProofsDatum", "GeomV.C09.ProofsPipeline"],
     "exe": "geomv_c09",
     "go_cmd": "c09",
     "stages": ["go:gen", "go:impl", "lean:judge"],
@@ -136,6 +136,11 @@ CFG = {
         "go_lcc_fwd_eq_js", "go_krovak_fwd_eq_js",
         "go_merc_inv_eq_js", "go_lcc_inv_eq_js", "go_aea_inv_eq_js", "go_eqdc_inv_eq_js", "go_tmerc_inv_eq_js",
         "go_krovak_inv_eq_js", "go_aeaPhi1z_eq_js",
+        # (A) datum.go / datum_transform.go = datum.js / datum_transform.js
+        "go_geodetic_to_geocentric_eq_js", "go_geocentric_to_geodetic_eq_js", "go_geocentric_to_wgs84_eq_js",
+        "go_geocentric_from_wgs84_eq_js", "go_compare_datums_eq_js", "go_datum_eq_js", "go_datum_eq_js_any",
+        # (A) transform.go closure = transform.js, given stage-wise equality
+        "go_pipeline_core_eq_js", "twoHop_same", "go_pipeline_eq_js", "stage_of", "js_forward_keeps_z", "js_inverse_keeps_z",
         # (B) Snyder's closed forms
         "snyder_mdist_eq", "snyder_m_eq", "snyder_t_eq", "snyder_q_eq",
         "snyder_merc_eq", "snyder_lcc_eq", "snyder_aea_eq", "snyder_eqdc_eq",
